@@ -15,7 +15,7 @@ From Coq Require Import List NArith ZArith Reals Floats Bool.
 From LW Require Import Base.Outcome Base.Hex Crypto.AES Crypto.AESAny Crypto.AESAnyProofs
   Crypto.KeyWrap Crypto.KeyWrapAny Crypto.KeyWrapAnyProofs
   Backend.F64 Backend.F64Sweep Backend.F64Proofs Backend.HexBytes Backend.KeyEnvelope Backend.EnvelopeProofs
-  Backend.KeyEnvelopeAny Backend.EnvelopeAnyProofs Backend.Iso8601 Backend.Iso8601Proofs Backend.Json Backend.JsonProofs Backend.Payload Backend.PayloadProofs Backend.PayloadFloat.
+  Backend.KeyEnvelopeAny Backend.EnvelopeAnyProofs Backend.Iso8601 Backend.Iso8601Proofs Backend.Json Backend.JsonProofs Backend.Payload Backend.PayloadProofs Backend.PayloadFloat Backend.PayloadTables Backend.PayloadTablesProofs.
 Import ListNotations.
 
 (* ---------- Percentage ---------- *)
@@ -260,6 +260,36 @@ Theorem C17_payload_roundtrip_join : forall c t v,
   has_type t false v = true -> decode c t (encode c t v) = Some (norm t false v).
 Proof. exact payload_roundtrip_2. Qed.
 Print Assumptions C17_payload_roundtrip_join.
+
+(* all 20 request / answer payload types and the 10 objects nested in them (PayloadTables.v): usable descriptions *)
+Theorem C17_payload_tables_usable : forall t, In t (payload_types ++ nested_types) ->
+  twf t = true /\ (tdepth t <= 1000)%nat.
+Proof.
+  exact (fun t H => usable_spec t (proj1 (forallb_forall usable (payload_types ++ nested_types)) all_usable t H)).
+Qed.
+Print Assumptions C17_payload_tables_usable.
+
+(* json.Unmarshal (json.Marshal x) = norm x for every one of them, given the premise about strconv's float text *)
+Theorem C17_payload_roundtrip : forall c t v,
+  (forall f, ffinite f = true -> is_number (ftext c f) = true /\ fparse c (ftext c f) = Some f) ->
+  In t (payload_types ++ nested_types) -> has_type t false v = true ->
+  decode c t (encode c t v) = Some (norm t false v).
+Proof. exact payload_roundtrip. Qed.
+Print Assumptions C17_payload_roundtrip.
+
+(* and without any premise for the 13 payload types that carry no Frequency / Percentage / float64:
+   Join, Rejoin, AppSKey, PRStop, HRStop, HomeNS request and answer, ProfileReq *)
+Theorem C17_payload_roundtrip_float_free : forall c t v,
+  In t [t_joinreq; t_joinans; t_rejoinreq; t_rejoinans; t_appskeyreq; t_appskeyans; t_prstopreq; t_prstopans;
+        t_hrstopreq; t_hrstopans; t_homensreq; t_homensans; t_profilereq] ->
+  has_type t false v = true -> decode c t (encode c t v) = Some (norm t false v).
+Proof. exact payload_roundtrip_float_free. Qed.
+Print Assumptions C17_payload_roundtrip_float_free.
+
+Example C17_struct_example : forall c,
+  has_type t_joinreq false ex_joinreq = true /\ decode c t_joinreq (encode c t_joinreq ex_joinreq) = Some ex_joinreq /\
+  List.length payload_types = 20%nat.
+Proof. intros c. vm_compute. repeat split; reflexivity. Qed.
 
 (* non-vacuity *)
 Example C17_example :
